@@ -7,8 +7,8 @@ package main
 
 import (
 	"bytes"
-	gojson "encoding/json"
 	"encoding/hex"
+	gojson "encoding/json"
 	"fmt"
 	"math"
 	"sort"
@@ -23,7 +23,10 @@ import (
 
 // ---- line syntax of json values (superset of codec's) ---------------------------
 
-type jfloats struct{ seen map[uint64]bool; list []uint64 }
+type jfloats struct {
+	seen map[uint64]bool
+	list []uint64
+}
 
 func jenc(sb *strings.Builder, o ugo.Object, fl *jfloats) {
 	switch v := o.(type) {
@@ -950,6 +953,9 @@ var fixedDocs = []string{"", " ", "0", "-0", "01", "-01", "00", "1.", "1.e1", ".
 	"// c\n1", "/* c */1", "[1,2,3]", " [ 1 , 2 ] ", "{\"a\":{\"b\":[{}]}}", "[[[[[[[[[[]]]]]]]]]]", "[[[[[[[[[[", "]]]]", "{\"\":\"\"}", "\"<>&\"", "[\"<\",\">\",\"&\",\"\xe2\x80\xa8\",\"\xe2\x80\xa9\"]",
 	"1.0e+5", "-0.0", "123456789012345678901234567890", "0.1e-1000", "1\n", "\n1", "\v1", "1\f", "\"\\u0000\"", "{\"\\u0061\":1,\"a\":2}", "[\"\\/\"]", "  ", "\t\r\n", "[\r\n]", "{\t}"}
 
+// modelUnmarshal: the Unmarshal lines are compared with the Lean decoder model
+const modelUnmarshal = false
+
 var indentArgs = [][2]string{{"", ""}, {"", " "}, {"", "\t"}, {">", "  "}, {"pre", "ind"}, {" ", ""}, {"\"", "\\"}, {"\n", "\n"}, {"", "\xff"}}
 
 func nest(open, close string, n int, mid string) string {
@@ -1031,7 +1037,9 @@ func init() {
 				ii := indentImpl(bs, pi[0], pi[1])
 				c.Add(Case{Line: "json\tindent\t" + hex.EncodeToString([]byte(pi[0])) + "\t" + hex.EncodeToString([]byte(pi[1])) + "\t" + h, Impl: ii, Key: "indent:" + kind + ":" + ii[:2]})
 				ui := unmarshalImpl(bs)
-				c.Add(Case{Line: "json\tunmarshal\t" + h + "\t" + numTable(bs), Impl: ui, Key: "unmarshal:" + kind + ":" + pfx(strings.SplitN(ui, "(", 2)[0], 6)})
+				if modelUnmarshal {
+					c.Add(Case{Line: "json\tunmarshal\t" + h + "\t" + numTable(bs), Impl: ui, Key: "unmarshal:" + kind + ":" + pfx(strings.SplitN(ui, "(", 2)[0], 6)})
+				}
 			}
 			for _, d := range fixedDocs {
 				addDoc([]byte(d), "fixed")
